@@ -506,6 +506,11 @@ func c13Random(s Src, tier string) *Case {
 		if Chance(s, "valid", 1, 3) {
 			// valid by construction (closures, functions in containers, recursion, shadowing): runs to the end
 			prog, _ = validProgramOpt(s, true)
+			cs := c13Case(s, "grammar", prog, "", &C13Expect{Source: "grammar"}, n, fresh)
+			for i := range cs.Runs {
+				cs.Runs[i].Cfg.Budget = 30000000 // nested counted loops and calls
+			}
+			return cs
 		}
 		return c13Case(s, "grammar", prog, "", &C13Expect{Source: "grammar"}, n, fresh)
 	case 15, 16:
